@@ -34,7 +34,7 @@ def run(pid, mode, tier, seed, replay, prop_module, corr_vo, corr_name, tables, 
         corr_name=corr_name,
         trusted=TRUSTED,
         assume=ASSUME,
-        coqchk_modules=["GR." + prop_module],
+        coqchk_modules=["GR." + m for m in ([prop_module] if isinstance(prop_module, str) else prop_module)],
         driver_timeout=timeout,
         post=post,
     )
